@@ -245,6 +245,7 @@ pub struct Stats {
     pub vec_checks: u32,
     pub emb_killed: u32,
     pub double_updates: u32,
+    pub head_near_end_after_commit: u32,
 }
 
 pub struct Exec {
@@ -257,6 +258,11 @@ pub struct Exec {
     pub stats: Stats,
     pub fam: &'static str,
     logfill_overhead: Option<u64>,
+    /// (head before the put, payload length, region size) of a put issued with nothing else pending
+    cf_probe: Option<(u64, u64, u64)>,
+    /// log bytes one put + commit cycle adds beyond the payload (frame record overhead + whatever the
+    /// commit itself logs), learnt from such a cycle
+    commit_overhead: Option<u64>,
     gen_no: u32,
     last_wal_size: u64,
     committed_once: bool,
@@ -335,6 +341,8 @@ impl Exec {
             stats: Stats::default(),
             fam,
             logfill_overhead: None,
+            cf_probe: None,
+            commit_overhead: None,
             gen_no: 0,
             last_wal_size,
             committed_once: false,
@@ -361,6 +369,8 @@ impl Exec {
             stats: Stats::default(),
             fam,
             logfill_overhead: None,
+            cf_probe: None,
+            commit_overhead: None,
             gen_no: 0,
             last_wal_size,
             committed_once: false,
@@ -421,6 +431,18 @@ impl Exec {
                     let len = room - overhead - d;
                     if len <= 1 << 20 {
                         return gen::gen_blob(*seed, len as u32, BlobKind::NonUtf8);
+                    }
+                }
+            }
+        }
+        if let Payload::CommitFill { d, seed } = p {
+            let d = (*d as u64) % 64;
+            if let (Some((head, size)), Some(overhead)) = (scan_wal_head(&self.path), self.commit_overhead) {
+                let room = size.saturating_sub(head);
+                if !self.model.has_pending() && room > overhead + d + 16 {
+                    let len = room - overhead - d;
+                    if len <= 1 << 20 {
+                        return gen::gen_blob(*seed, len as u32, BlobKind::Random);
                     }
                 }
             }
@@ -487,6 +509,10 @@ impl Exec {
                 let pre = self.mem().frame_count();
                 let predicted = self.mem().next_frame_id();
                 let head_before = scan_wal_head(&self.path);
+                self.cf_probe = match (head_before, self.model.has_pending()) {
+                    (Some((h, sz)), false) => Some((h, bytes.len() as u64, sz)),
+                    _ => None,
+                };
                 let res = match &emb {
                     Some(e) => self.mem().put_with_embedding_and_options(&bytes, e.clone(), opts),
                     None => self.mem().put_bytes_with_options(&bytes, opts),
@@ -693,6 +719,16 @@ impl Exec {
                 let had_pending = self.model.has_pending();
                 match self.mem().commit() {
                     Ok(()) => {
+                        if let (Some((hb, plen, size)), Some((ha, sa))) = (self.cf_probe.take(), scan_wal_head(&self.path)) {
+                            if sa == size && ha > hb + plen && self.model.pending.len() == 1 {
+                                self.commit_overhead = Some(ha - hb - plen);
+                            }
+                            // within 48 bytes of the end, or already relocated to offset 0 by the
+                            // checkpoint (the scan then sees an empty log)
+                            if sa == size && (sa - ha.min(sa) < 48 || (ha == 0 && hb > 0)) {
+                                self.stats.head_near_end_after_commit += 1;
+                            }
+                        }
                         self.stats.commits += 1;
                         self.committed_once = true;
                         self.model.materialise_all();
